@@ -593,6 +593,8 @@ def _drop_shared(d, st, v, why):
 
 DROP_MODELS['Shared'] = _drop_shared
 DROP_MODELS['JoinHandle'] = lambda d, st, v, why: None      # tokio: dropping the handle detaches
+DROP_MODELS['AsyncJoinHandle'] = lambda d, st, v, why: None  # async-std: dropping the handle detaches
+DROP_MODELS['SmolTask'] = lambda d, st, v, why: d.eng.sys.cancel_task(st, v.extra['task'], 'smol::Task dropped without detach()')
 DROP_MODELS['AbortHandle'] = lambda d, st, v, why: None
 DROP_MODELS['Abortable'] = lambda d, st, v, why: d.drop(st, v.fields.get(('f', 0)), why)
 
@@ -1197,13 +1199,14 @@ def install(eng: Engine, resolver):
     add(r'^<Box<.*> as Drop>::drop$', lambda e, st, fr, t, a: UNIT)    # explicit dealloc after moving the content out
     add(r'^Box::<.*>::new$', m_box_new)
     add(r'^Box::<.*>::pin$', m_box_pin)
-    add(r'^futures::futures_channel::mpsc::channel::<', m_mpsc_channel)
+    add(r'^(futures::futures_channel::)?mpsc::channel::<|^channel::<', m_mpsc_channel)
     add(r'^(futures::futures_channel::mpsc::)?unbounded::<', m_mpsc_unbounded)
-    add(r'^<futures::futures_channel::mpsc::(Unbounded)?Sender<.*> as Clone>::clone$', m_sender_clone)
-    add(r'^futures::futures_channel::mpsc::(Unbounded)?Sender::<.*>::start_send$', m_start_send)
-    add(r'^futures::futures_channel::mpsc::UnboundedSender::<.*>::len$', m_unbounded_len)
-    add(r'^<futures::futures_channel::mpsc::(Unbounded)?Sender<.*> as SinkExt<.*>>::send$', m_sink_send)
-    add(r'^<&mut futures::futures_channel::mpsc::(Unbounded)?Receiver<.*> as Stream>::poll_next$', m_rx_poll_next)
+    add(r'^<(Unbounded)?Sender<.*> as Clone>::clone$', m_sender_clone)
+    add(r'^<(futures::futures_channel::mpsc::)?(Unbounded)?Sender<.*> as Clone>::clone$', m_sender_clone)
+    add(r'^(futures::futures_channel::mpsc::)?(Unbounded)?Sender::<.*>::start_send$', m_start_send)
+    add(r'^(futures::futures_channel::mpsc::)?UnboundedSender::<.*>::len$', m_unbounded_len)
+    add(r'^<(futures::futures_channel::mpsc::)?(Unbounded)?Sender<.*> as SinkExt<.*>>::send$', m_sink_send)
+    add(r'^<&mut (futures::futures_channel::mpsc::)?(Unbounded)?Receiver<.*> as Stream>::poll_next$', m_rx_poll_next)
     add(r'oneshot::channel::<', m_oneshot_channel)
     add(r'oneshot::Sender::<.*>::send$', m_oneshot_send)
     add(r' as FutureExt>::shared$', m_shared)
